@@ -62,7 +62,9 @@ def gen_cases(rng, tier):
             case["keep_sign"] = rng.random() < 0.2
             if mode == "explicit":
                 case["r"] = rng.choice([0.5, 1.0, 3.0])
-                case["x0"] = rng.choice([None, 0.0, 1.0, 2.5]) if case["method"] == "logistic" else None
+                # x0 is accepted for every method (the gaussian / exponential squashes document it in their formula but
+                # fix the midpoint at 0 and report x0 = 0): an explicit midpoint must never cost monotonicity
+                case["x0"] = rng.choice([None, 0.0, 1.0, 2.5])
             elif mode == "quantile":
                 case["cq"] = rng.choice([0.5, 0.75, 0.9])
             elif mode == "quantile_pair":
@@ -149,9 +151,9 @@ def formula(case, x, r, x0):
     if m == "logistic":
         return 1.0 / (1.0 + pw(-(x - x0) / r))
     if m == "gaussian":
-        return 1.0 - pw(-(x - 0.0) ** 2 / (r * r))
+        return 1.0 - pw(-(x - x0) ** 2 / (r * r))       # x0 = the midpoint the routine REPORTS
     if m == "exponential":
-        return 1.0 - pw(-(x - 0.0) / r)
+        return 1.0 - pw(-(x - x0) / r)
 
 
 def judge(case, got, exp):
